@@ -18,13 +18,15 @@ import (
 )
 
 func torsionG1(prng io.Reader) *bls12381.PointG1 {
-	bf := bls12381.NewG1BaseField()
+	// low-level constructor: G1.FromAffineX refuses points outside the prime-order subgroup (since fix 36a8334)
 	for {
-		x, err := bf.Random(prng)
-		must(err)
-		p, err := bls12381.NewG1().FromAffineX(x, false)
-		if err == nil && !p.IsTorsionFree() && !p.IsOpIdentity() {
-			return p
+		var x bls12381Impl.Fp
+		if x.SetRandom(prng) != 1 {
+			panic("fp random")
+		}
+		var p bls12381.PointG1
+		if p.V.SetFromAffineX(&x) == 1 && !p.IsTorsionFree() && !p.IsOpIdentity() {
+			return &p
 		}
 	}
 }
